@@ -14,6 +14,7 @@ import (
 	"net/http"
 	"strings"
 	"sync"
+	"syscall"
 	"time"
 
 	"github.com/bfenetworks/bfe/bfe_http"
@@ -56,8 +57,9 @@ var verdictIDs = map[string]int{"GoOn": bfe_module.BfeHandlerGoOn, "Finish": bfe
 
 type pipeReg struct {
 	mu     sync.Mutex
-	byAddr map[string]*pipeCase
+	byAddr map[string]*pipeCase // client socket address -> case, registered BEFORE connect()
 	byID   map[string]*pipeCase
+	bySess sync.Map // *bfe_basic.Session -> *pipeCase, set by the first accept filter
 }
 
 func (r *pipeReg) addr(a string, wait time.Duration) *pipeCase {
@@ -115,8 +117,15 @@ func pipeline() {
 					reg.mu.Lock()
 					pc = reg.byID[h.Get("X-Case")]
 					reg.mu.Unlock()
-				} else {
+				} else if v, ok := reg.bySess.Load(c.Session); ok {
+					pc = v.(*pipeCase)
+				} else if pname == "A" {
+					// ephemeral ports are reused: only the accept point resolves the address (the
+					// client registered it before connecting); later session points use the session
 					pc = reg.addr(c.Session.RemoteAddr.String(), 10*time.Second)
+					if pc != nil {
+						reg.bySess.Store(c.Session, pc)
+					}
 				}
 				if pc == nil {
 					return bfe_module.BfeHandlerGoOn, nil
@@ -198,16 +207,33 @@ func runPipeCase(s *e2e.Server, reg *pipeReg, c *pipeCase) {
 	reg.mu.Lock()
 	reg.byID[id] = c
 	reg.mu.Unlock()
-	raw, err := net.DialTimeout("tcp", addr, 10*time.Second)
+	// bind the client socket first and register its address before connect(): the accept filter
+	// can then never see an unregistered (or a previous case's) address
+	d := net.Dialer{Timeout: 20 * time.Second, Control: func(network, address string, rc syscall.RawConn) error {
+		var cerr error
+		rc.Control(func(fd uintptr) {
+			if cerr = syscall.Bind(int(fd), &syscall.SockaddrInet4{Addr: [4]byte{127, 0, 0, 1}}); cerr != nil {
+				return
+			}
+			sa, e := syscall.Getsockname(int(fd))
+			if e != nil {
+				cerr = e
+				return
+			}
+			if in4, ok := sa.(*syscall.SockaddrInet4); ok {
+				reg.mu.Lock()
+				reg.byAddr[fmt.Sprintf("127.0.0.1:%d", in4.Port)] = c
+				reg.mu.Unlock()
+			}
+		})
+		return cerr
+	}}
+	raw, err := d.Dial("tcp4", addr)
 	if err != nil {
 		out["machinery"] = "dial: " + err.Error()
 		vh.Emit(out)
 		return
 	}
-	local := raw.LocalAddr().String()
-	reg.mu.Lock()
-	reg.byAddr[local] = c
-	reg.mu.Unlock()
 	var conn net.Conn = raw
 	hsFailed := false
 	if c.TLS {
